@@ -56,8 +56,30 @@ def run(ck, prog):
     ck.anchor(wl is not None, "work-list loop (VecDeque::pop_front) not found in collect_sources")
     h, blocks, popb = wl
     pushes = [i for i in blocks if b.term(i)["k"] == "call" and (Body.callee(b.term(i)) or "").endswith("push_back")]
-    ck.anchor(pushes, "no push_back in the work-list loop")
-    ok, why = worklist_bounded(prog, b, h, blocks, popb, pushes)
+    if pushes:
+        ok, why = worklist_bounded(prog, b, h, blocks, popb, pushes)
+    else:
+        # the loop body may have been extracted: a workspace function called in the loop with the popped id, in which
+        # the pushes happen; it is analysed as the loop body, its returns being the way back to the loop head
+        ok, why = False, "no push_back in the work-list loop or in a function it calls with the popped id"
+        for i in blocks:
+            t = b.term(i)
+            if t["k"] != "call":
+                continue
+            cb = prog.body(Body.callee(t) or "")
+            if cb is None or cb.crate != b.crate:
+                continue
+            karg = None
+            for k, a in enumerate(t["args"]):
+                if any(x[0] == "call" and x[1].endswith("pop_front") for x in prov.origins(b, a)):
+                    karg = k + 1
+            cpushes = [j for j, tt in cb.calls() if (Body.callee(tt) or "").endswith("push_back")]
+            if karg is None or not cpushes:
+                continue
+            ok, why = worklist_bounded(prog, cb, None, list(range(len(cb.blocks))), None, cpushes, key_arg=karg)
+            why = "%s (loop body in %s)" % (why, cb.path.rsplit("::", 1)[-1])
+            break
+        ck.anchor(ok or why != "no push_back in the work-list loop or in a function it calls with the popped id", why)
     ck.ob("R16.1", "worklist", ok, why,
           msg="collect_sources: the include work list is not bounded by a visited set (%s): an include cycle never "
               "lets root selection finish" % why)
@@ -208,7 +230,13 @@ def polarity_ok(b, test_bb, target_bb, callee):
     return target_bb in b.reachable(fresh_edge, avoid={sw}) and target_bb not in b.reachable(seen_edge, avoid={sw})
 
 
-def worklist_bounded(prog, b, h, blocks, popb, pushes):
+def worklist_bounded(prog, b, h, blocks, popb, pushes, key_arg=None):
+    """key_arg: when the loop body is a function of its own, the index of the parameter that receives the popped id
+    (the way back to the loop head is then the function's return)"""
+    def is_key(x):
+        if key_arg is not None:
+            return x[0] == "arg" and x[1] == key_arg
+        return x[0] == "call" and x[1].endswith("pop_front")
     tests = [i for i in blocks if b.term(i)["k"] == "call" and SET_TEST.search(Body.callee(b.term(i)) or "")]
     if not tests:
         return False, "no visited-set test in the loop"
@@ -220,7 +248,7 @@ def worklist_bounded(prog, b, h, blocks, popb, pushes):
         keyo = set()
         for a in tt["args"][1:]:
             keyo |= prov.origins(b, a)
-        if not keyo or not all(x[0] == "call" and x[1].endswith("pop_front") for x in keyo):
+        if not keyo or not all(is_key(x) for x in keyo):
             continue
         sw = tt["t"]
         st = b.term(sw)
@@ -233,15 +261,15 @@ def worklist_bounded(prog, b, h, blocks, popb, pushes):
         seen_edge = zero if c.endswith("insert") else nonzero
         fresh_edge = nonzero if c.endswith("insert") else zero
         inloop = set(blocks)
-        seen_reach = b.reachable(seen_edge, avoid={h} | (set(range(len(b.blocks))) - inloop))
+        seen_reach = b.reachable(seen_edge, avoid=({h} if h is not None else set()) | (set(range(len(b.blocks))) - inloop))
         if any(p in seen_reach for p in pushes):
             continue
         if c.endswith("insert"):
             return True, "popped id is inserted into a set; already-present ids queue nothing"
         # contains(): the fresh branch must insert the id before pushing
         recs = {i for i in blocks if b.term(i)["k"] == "call" and re.search(r"(FileSet|HashSet::<T, S>|HashMap::<K, V, S>)::insert$", Body.callee(b.term(i)) or "")
-                and any(x[0] == "call" and x[1].endswith("pop_front") for a in b.term(i)["args"][1:2] for x in prov.origins(b, a))}
-        if recs and all(cfg.path_exists(b, sw, lambda x, p=p: x == p, avoid=recs | {h}) is None or True for p in pushes):
+                and any(is_key(x) for a in b.term(i)["args"][1:2] for x in prov.origins(b, a))}
+        if recs:
             bad = [p for p in pushes if cfg.path_exists(b, fresh_edge, lambda x, p=p: x == p, avoid=recs, include_src=True) is not None]
             if not bad:
                 return True, "already-collected files are skipped at pop time; a fresh file is recorded before its includes are queued"
